@@ -10,8 +10,12 @@ import JjModel.Lemmas.HeadsInv
     `normalize_heads_covers` — everything below an old head is below a new head;
     `normalize_heads_idempotent`.
   * `add_heads_fast_path_ok` — the incremental `replace_heads` path of `MutableRepo::add_heads`
-    yields the same set as insertion + normalisation, *provided the new head has a parent*;
-    `add_head_of_root_breaks_inv` is the counterexample for the parentless root (known finding).
+    yields the same set as insertion + normalisation when the new head has a parent — which is the
+    guard `!head.parent_ids().is_empty()` of `add_heads`; hence `add_head_eq_insert_normalize`:
+    the model's `addHead` = insertion + normalisation for *every* indexed commit, the root included
+    (`add_head_of_root_ok`, `edit_root_ok`: the scenarios of the fixed finding).
+    `addHeadUnguarded_of_root_breaks_inv` is a sentinel about the *unguarded* variant (a separate
+    definition, not the model): without the guard the parentless root breaks the invariant.
   * `Inv` (the property) and the transaction invariant `Pre`; `inv_init`, `pre_step` (one lemma
     per operation in `Lemmas/HeadsInv.lean`), `inv_commit`, `pre_reachable`, **`inv_reachable`**:
     after every `Transaction::commit` of every sequence of the covered operations the view
@@ -60,7 +64,9 @@ theorem normalize_heads_idempotent (anc : Nat → Nat → Bool) (hpo : PO anc) (
 /-! ### the incremental fast path of `add_heads` -/
 
 /-- `replace_heads(c, parents)` = insert + normalize, when the heads are normalized, every parent of
-`c` is a head, and `c` has a parent. -/
+`c` is a head, and `c` has a parent.  (A statement about the bare set function `fastHeads`; the last
+hypothesis is exactly the guard `!head.parent_ids().is_empty()` of `add_heads`, so the model-level
+statement `add_head_eq_insert_normalize` below needs no such side condition.) -/
 theorem add_heads_fast_path_ok (anc : Nat → Nat → Bool) (hpo : PO anc) (root : Nat) (hs : List Nat) (c : Nat)
     (hroot : ∀ x ∈ setInsert c hs, anc root x = true) (hn : Normal anc root hs)
     (ps : List Nat) (hps : ps ≠ []) (hsub : ∀ p ∈ ps, p ∈ hs)
@@ -69,24 +75,89 @@ theorem add_heads_fast_path_ok (anc : Nat → Nat → Bool) (hpo : PO anc) (root
     x ∈ fastHeads hs c ps ↔ x ∈ normalizeHeadIds anc root (setInsert c hs) :=
   Heads.add_heads_fast_path_ok anc hpo root hs c hroot hn ps hps hsub hpar hstrict x
 
-/-- the model's `addHead` takes exactly that path -/
-theorem addHead_fast_path (r : Repo) (c : Nat) (h : (r.parentsOf c).all (fun p => r.heads.contains p) = true) :
+/-- the model's `addHead` takes the incremental path exactly when the guard of `add_heads` holds:
+the commit has a parent and every parent is a current head -/
+theorem addHead_fast_path (r : Repo) (c : Nat)
+    (h : (!(r.parentsOf c).isEmpty && (r.parentsOf c).all (fun p => r.heads.contains p)) = true) :
     (addHead r c).heads = fastHeads r.heads c (r.parentsOf c) ∧ (addHead r c).normalized = r.normalized := by
   unfold addHead
   dsimp only
   rw [if_pos h]
   exact ⟨rfl, rfl⟩
 
-/-- **Known finding (regression sentinel).** Without the `ps ≠ []` hypothesis the fast path is wrong:
-`add_head(root)` in a normalized repo with one non-root head leaves `{1, root}` flagged as
-normalized, and `commit` persists it. -/
-theorem add_head_of_root_breaks_inv :
-    ∃ r r', Inv r ∧ commitTx (addHead r 0) = some r' ∧ ¬ Inv r' := by
+/-- a commit without parents (the root) never takes the incremental path -/
+theorem addHead_parentless (r : Repo) (c : Nat) (h : r.parentsOf c = []) : addHead r c = viewAddHead r c := by
+  unfold addHead
+  dsimp only
+  rw [h]; rfl
+
+/-- **`add_head` is insert + normalize, for every indexed commit (the root included).**  In a
+transaction state whose heads are flagged normalized, `add_head(c)` followed by `normalize_heads`
+yields exactly the head set that plain insertion of `c` followed by normalisation yields — whichever
+path `add_heads` took.  No "has a parent" hypothesis: the guard in `add_heads` supplies it on the
+incremental path, and the general path is insertion by definition. -/
+theorem add_head_eq_insert_normalize (r : Repo) (p : Pre r) (hflag : r.normalized = true) (c : Nat)
+    (hc : c < r.size) (x : Nat) :
+    x ∈ (normalizeHeads (addHead r c)).heads ↔ x ∈ normalizeHeadIds r.isAnc 0 (setInsert c r.heads) := by
+  by_cases hg : (!(r.parentsOf c).isEmpty && (r.parentsOf c).all (fun p => r.heads.contains p)) = true
+  · have hg' := Bool.and_eq_true_iff.mp hg
+    have hpne : r.parentsOf c ≠ [] := by
+      intro he; have h1 := hg'.1; rw [he] at h1; simp at h1
+    have hsub : ∀ q ∈ r.parentsOf c, q ∈ r.heads := by
+      intro q hq; have := List.all_eq_true.mp hg'.2 q hq; simpa using this
+    have e : addHead r c = replaceHeads r c (r.parentsOf c) := by
+      unfold addHead; dsimp only; rw [if_pos hg]
+    have e2 : normalizeHeads (replaceHeads r c (r.parentsOf c)) = replaceHeads r c (r.parentsOf c) := by
+      unfold normalizeHeads; rw [if_pos (show (replaceHeads r c (r.parentsOf c)).normalized = true from hflag)]
+    rw [e, e2]
+    show x ∈ fastHeads r.heads c (r.parentsOf c) ↔ _
+    refine Heads.add_heads_fast_path_ok r.isAnc p.wf.po 0 r.heads c ?_ (p.flag hflag) _ hpne hsub
+      (p.wf.anc_parents c hc) (p.wf.parent_strict c hc) x
+    intro y hy
+    rcases (mem_setInsert c y r.heads).mp hy with rfl | hy
+    · exact p.wf.root_anc y hc
+    · exact p.wf.root_anc y (p.range y hy)
+  · have e : addHead r c = viewAddHead r c := by
+      unfold addHead; dsimp only; rw [if_neg hg]
+    rw [e]
+    rfl
+
+/-- **Fixed finding (regression sentinel for the scenario).** `new:0 commit addhead:0 commit`:
+`add_head(root)` in a normalized repo with the single non-root head 1 now goes through the general
+path, and `commit` persists `heads = {1}`. -/
+theorem add_head_of_root_ok :
+    ∃ r', commitTx (addHead (newCommit Repo.init [0] false).1 0) = some r' ∧ r'.heads = [1] ∧ Inv r' := by
+  refine ⟨_, rfl, by decide, ⟨⟨by decide, by decide, by decide, by decide⟩, ⟨by decide, by decide⟩⟩⟩
+
+/-- … and likewise through `edit(ws, root)`, which adds the head before `set_wc_commit` rejects the
+root commit (`new:0 commit edit:0:0 commit`) -/
+theorem edit_root_ok :
+    ∃ r', (edit (newCommit Repo.init [0] false).1 0 0).2 = false ∧
+      commitTx (edit (newCommit Repo.init [0] false).1 0 0).1 = some r' ∧ r'.heads = [1] ∧ Inv r' := by
+  refine ⟨_, by decide, rfl, by decide, ⟨⟨by decide, by decide, by decide, by decide⟩, ⟨by decide, by decide⟩⟩⟩
+
+/-- **Why the guard is needed (sentinel about the *unguarded* variant `addHeadUnguarded`, which is
+not the model the driver runs).**  Taking the incremental path whenever "all parents are heads" —
+vacuously true for the parentless root — `add_head(root)` in a normalized repo with one non-root
+head leaves `{1, root}` flagged as normalized, and `commit` persists it.  This was the behaviour of
+`MutableRepo::add_heads` before the guard `!head.parent_ids().is_empty()` was added. -/
+theorem addHeadUnguarded_of_root_breaks_inv :
+    ∃ r r', Inv r ∧ commitTx (addHeadUnguarded r 0) = some r' ∧ ¬ Inv r' := by
   refine ⟨(newCommit Repo.init [0] false).1, { (newCommit Repo.init [0] false).1 with heads := [1, 0] }, ?_, rfl, ?_⟩
   · refine ⟨⟨by decide, by decide, by decide, by decide⟩, ⟨by decide, by decide⟩⟩
   · intro h
     have := h.normal.rootAlone (by decide)
     revert this; decide
+
+/-- the two variants differ only on commits without parents -/
+theorem addHeadUnguarded_eq (r : Repo) (c : Nat) (h : r.parentsOf c ≠ []) : addHeadUnguarded r c = addHead r c := by
+  unfold addHeadUnguarded addHead
+  dsimp only
+  have : (r.parentsOf c).isEmpty = false := by
+    cases hp : r.parentsOf c with
+    | nil => exact absurd hp h
+    | cons _ _ => rfl
+  rw [this]; rfl
 
 /-! ### the invariant over operation sequences -/
 
@@ -162,11 +233,11 @@ inductive OpOk (r : Repo) : Op → Prop
   | ab (c : Nat) : 0 < c → OpOk r (.ab c)
   | rebase : RebaseRefsOk r → OpOk r .rebase
   | bm (name : Nat) (t : Target) : (∀ x ∈ addedIds t, x < r.size) → OpOk r (.bm name t)
-  | edit (ws c : Nat) : 0 < c → c < r.size → OpOk r (.edit ws c)
+  | edit (ws c : Nat) : c < r.size → OpOk r (.edit ws c)
   | co (ws c : Nat) : c < r.size → OpOk r (.co ws c)
   | rmws (ws : Nat) : OpOk r (.rmws ws)
   | setwc (ws c : Nat) : c = 0 ∨ r.isVisible c = true → OpOk r (.setwc ws c)
-  | addhead (c : Nat) : 0 < c → c < r.size → OpOk r (.addhead c)
+  | addhead (c : Nat) : c < r.size → OpOk r (.addhead c)
   | commit : OpOk r .commit
 
 /-- `inv_step`: every covered operation preserves the transaction invariant -/
@@ -180,14 +251,14 @@ theorem pre_step (r : Repo) (p : Pre r) (op : Op) (ok : OpOk r op) (r' : Repo) (
     simp only [step] at h; rw [if_neg (by omega)] at h; simp at h; rw [← h.1]; exact pre_abandonCommit r p c
   | rebase h1 => simp [step] at h; rw [← h.1]; exact (rebase_inv_partial r h1).1
   | bm name t h1 => simp [step] at h; rw [← h.1]; exact pre_setLocalBookmark r p name t h1
-  | edit ws c h1 h2 =>
-    simp [step] at h; have := pre_edit r p ws c h1 h2; rw [h] at this; exact this
+  | edit ws c h1 =>
+    simp [step] at h; have := pre_edit r p ws c h1; rw [h] at this; exact this
   | co ws c h1 =>
     simp [step] at h; have := pre_checkOut r p ws c h1; rw [h] at this; exact this
   | rmws ws => simp [step] at h; rw [← h.1]; exact pre_removeWorkspace r p ws
   | setwc ws c h1 =>
     simp [step] at h; have := pre_setWcCommit r p ws c h1; rw [h] at this; exact this
-  | addhead c h1 h2 => simp [step] at h; rw [← h.1]; exact pre_addHead r p c h1 h2
+  | addhead c h1 => simp [step] at h; rw [← h.1]; exact pre_addHead r p c h1
   | commit =>
     simp only [step, Option.map_eq_some_iff] at h
     obtain ⟨r'', h1, h2⟩ := h
@@ -226,8 +297,33 @@ example : ∃ r, Reach r ∧ (step r .commit).isSome = true ∧ r.size = 3 := by
   have h1 : Reach r1 := .step _ (.new [0]) r1 true .init (.new _ (by decide) (by decide)) rfl
   have h2 : Reach r2 := .step _ (.new [1]) r2 true h1 (.new _ (by decide) (by decide)) rfl
   have h3 : Reach r3 := .step _ (.bm 0 [some 2]) r3 true h2 (.bm _ _ (by decide)) rfl
-  have h4 : Reach r4 := .step _ (.edit 0 1) r4 true h3 (.edit _ _ (by decide) (by decide)) rfl
+  have h4 : Reach r4 := .step _ (.edit 0 1) r4 true h3 (.edit _ _ (by decide)) rfl
   exact ⟨r4, h4, by decide, by decide⟩
+
+/-- the sequences of the fixed finding are covered: `new:0 commit addhead:0 commit` and
+`new:0 commit edit:0:0 commit` (the `edit` returns `Err`), both ending with `heads = {1}` -/
+example : ∃ r, Reach r ∧ ∃ r', step r .commit = some (r', true) ∧ r'.heads = [1] := by
+  let r1 := (newCommit Repo.init [0] false).1
+  let r2 := normalizeHeads r1
+  let r3 := addHead r2 0
+  have h1 : Reach r1 := .step _ (.new [0]) r1 true .init (.new _ (by decide) (by decide)) rfl
+  have h2 : Reach r2 := .step _ .commit r2 true h1 .commit rfl
+  have h3 : Reach r3 := .step _ (.addhead 0) r3 true h2 (.addhead _ (by decide)) rfl
+  exact ⟨r3, h3, _, rfl, by decide⟩
+
+example : ∃ r, Reach r ∧ ∃ r', step r .commit = some (r', true) ∧ r'.heads = [1] := by
+  let r1 := (newCommit Repo.init [0] false).1
+  let r2 := normalizeHeads r1
+  let r3 := (edit r2 0 0).1
+  have h1 : Reach r1 := .step _ (.new [0]) r1 true .init (.new _ (by decide) (by decide)) rfl
+  have h2 : Reach r2 := .step _ .commit r2 true h1 .commit rfl
+  have h3 : Reach r3 := .step _ (.edit 0 0) r3 false h2 (.edit _ _ (by decide)) rfl
+  exact ⟨r3, h3, _, rfl, by decide⟩
+
+/-- `add_head_eq_insert_normalize` at the root: hypotheses hold in the state after `new:0 commit` -/
+example : Pre (newCommit Repo.init [0] false).1 ∧ (newCommit Repo.init [0] false).1.normalized = true ∧
+    0 < (newCommit Repo.init [0] false).1.size :=
+  ⟨pre_newCommit _ pre_init [0] false (by decide) (by decide), by decide, by decide⟩
 
 /-- a linear order is an instance of `PO`, with least element 0 -/
 example : PO (fun a b => decide (a ≤ b)) :=
